@@ -116,7 +116,7 @@ CHECKS = {
 	'C16': dict(
 		category='exploration',
 		technique='Hypothesis-generated genome sets x 3x5 supply modes x options; CSV parse-back vs R-KMER -> R-JAC -> "%.4f" oracle; --square metamorphic equality',
-		text='The dist command is run for generated query/reference genome sets (multi-contig, gzip, nested directories, file names with commas/quotes/blanks/non-ASCII, any extension) in every combination of supply modes, with/without -k/-p (k up to 32), -c and progress, absolute or relative paths, list files used from a working directory holding decoy files or without a directory option, output over a longer pre-existing file, optionally after an earlier run on different content at the same paths; the CSV is parsed back and header, row labels and every cell are compared with labels derived from the file names / stored IDs and distances from the reference models; --square must be symmetric with zero diagonal and equal the full run on the same genomes.',
+		text='The dist command is run for generated query/reference genome sets (multi-contig, gzip, nested directories, file names with commas/quotes/blanks/non-ASCII or looking like comments / shell syntax, any extension, soft-masked sequence) in every combination of supply modes, with/without -k/-p (k up to 32), -c and progress, absolute or relative paths, list files used from a working directory holding decoy files or without a directory option, output over a longer pre-existing file, optionally after an earlier run on different content at the same paths; the CSV is parsed back and header, row labels and every cell are compared with labels derived from the file names / stored IDs and distances from the reference models; --square must be symmetric with zero diagonal and equal the full run on the same genomes.',
 		note='File names exclude newline/NUL// and, for list files, leading/trailing blanks. In-process CLI via CliRunner.',
 		design='DESIGN.md §4 C16',
 	),
